@@ -63,6 +63,28 @@ CHECKS = {
         note="", ref="5 (C19)", technique="TLA+ model checking + trace validation (TLC)"),
 }
 
+CHECKS.update({
+    "C10": dict(
+        category="fault_enumeration",
+        text="fault enumeration bound to the specification: (1) cancellation - for a built index with committed pending insertions and deletions the polls P of the fault-free build are counted, then build is run with a callback answering true "
+             "from its n-th call for n in 0..P+1 (quick: first 30, last 10, a stride; thorough: all; also under 2-16 rayon threads), each followed by abort and periodically by a clean retry with the C01/C02 conjuncts; "
+             "(2) LMDB map sizes from 32 KiB to ample (expected class MapFull, never a panic), (3) a temp dir that does not exist or is a regular file (expected Io), then a usable one; every Build event carries the delta of /proc/self/fd "
+             "and of the temp dir listing. TraceMain.tla decides: result class allowed, success only if cancellation was seen at most once, abort restores the committed database exactly (abstract state of all indexes), no descriptor or file left. "
+             "TLC additionally model-checks Arroy.tla with Cancel enabled between any two phases and Commit/Abort (no success over a half-built forest, abort restores).",
+        note="Monotone callbacks only. Out-of-space and I/O faults are injected through the environment (map size, temp dir), not at every individual put. The byte-for-byte comparison after abort is done on the decoded abstract state of every index plus a count of foreign keys.",
+        ref="5 (C10)", technique="fault enumeration + trace validation (TLC) + TLA+ model checking"),
+    "C14": dict(
+        text=MC + "(MC_Batch: every admissible batch choice at every iteration; liveness BuildEnds under weak fairness, invariant IdsBounded; sensitivity: the pinned code's minimum batch (AsCodedBatch) is refuted) + " + TV +
+             "first and incremental builds with available_memory in {0, 1 page, 16 pages, ~half/all of the items, ample, unset} x item counts {150,199,200,201,300,450(,1000)} x split_after {unset,50,250} x trees, mixing large insertions with deletions; "
+             "builds run under a poll-count watchdog (NoProgress is a recorded result); conjuncts: result Ok, C01 structure, exact search (C02) on the query lattice.",
+        note="Hang detection is by poll count (400k polls), not wall time. Histories of this family are validated structurally in full (hundreds of items), without margin sides.",
+        ref="5 (C14)", technique="TLA+ model checking (safety + liveness) + trace validation (TLC)"),
+    "C20": dict(
+        text=MC + "(the forest logic never looks at values: every side function and the random fallback are enumerated) + " + TV + "datasets: one vector x n, k vectors repeated, zeros mixed in, collinear, coordinates in {0,+-1}, magnitudes to f32::MAX, subnormals, NaN/inf components; "
+             "n in 1..300 (thorough 3000), all 7 metrics; builds under the poll watchdog; conjuncts: build Ok (panic / NoProgress are recorded results), C01 and C05 conjuncts, C03 well-formedness without the accuracy clause (the oracle makes no claim on non-finite or overflow-prone values).",
+        note="", ref="5 (C20)", technique="TLA+ model checking + trace validation (TLC)"),
+})
+
 REASONS_NOT_YET = "check not built yet (work in progress; DESIGN.md section 9 gives the order of work)"
 
 
